@@ -275,6 +275,12 @@ var memA, memB runtime.MemStats
 //   - NewTx, Tx.Raw set by the caller, SetHash(nil)
 //   - the transaction as second transaction of a block: NewBlock + BuildTxListExt(true)
 //     and (false), which take NoWitSize from NewTx's offsets and Size from the raw range
+//
+// doRoutes is switched off for the thorough tier's substitutions by values outside the
+// 8-value alphabet (256 values per position: the routes are compared for the 8 values
+// that both tiers use).
+var doRoutes = true
+
 var routeCb = (&reftx.Tx{Version: 1, In: []reftx.In{{Vout: 0xffffffff, Script: []byte{0x51, 0x51}, Sequence: 0xffffffff}}, Out: []reftx.Out{{Value: 1, Script: []byte{0x51}}}})
 
 func routes(raw []byte, rt *reftx.Tx, add func(k, w string)) {
@@ -415,7 +421,9 @@ func evalTx(b []byte, cont []byte) (res caseResult) {
 				add("accept/consumed-mismatch", fmt.Sprintf("NewTx consumed %d bytes, reference %d", n, rn))
 			} else {
 				compareTx(tx, rt, b[:rn], true, false, add)
-				routes(in[:rn], rt, add)
+				if doRoutes {
+					routes(in[:rn], rt, add)
+				}
 			}
 			res.Shape = shapeOf(len(rt.In), len(rt.Out), rt.HasWitness())
 		}
@@ -841,6 +849,10 @@ func workerMain() {
 			case "tx":
 				c = txGen(getBase(j.Base, j.Thor), j.Fam, alpha, i)
 				cont = txTail(getBase(j.Base, j.Thor), j.Fam, i)
+				doRoutes = true
+				if j.Fam == "subst" && j.Alpha == 256 && bytes.IndexByte(alpha8, alpha[i%256]) < 0 {
+					doRoutes = false
+				}
 			case "short":
 				c = shortGen(i)
 				cont = []byte{1, 0, 0, 0, 0, 0}
